@@ -376,6 +376,46 @@ def mips_abi_dispatch(res, prog, cu):
         res.error('C04.10', 'expected the two MIPS scan functions, found %d' % seen)
 
 
+def amd64_probe(res, prog, cu):
+    """C04.11: the Windows x64 frame-pointer probe tries every slot.  In the probing loop a candidate-specific failure
+    moves on to the next slot (`continue`); the only reads that may end the whole probe with `?` are those at addresses
+    computed from last_bp and the loop offset.  A read at an address that was itself read from the stack (the candidate's
+    saved rbp) must not sit under `?` (repair 37ec106)."""
+    res.rule('C04.11', 0, floor=1, note='amd64 frame-pointer probe: reads at candidate-derived addresses do not abort the probe')
+    fs = [f for f in cu.fns if re.search(r'^minidump_unwind::amd64::get_caller_by_frame_pointer::\{closure#\d+\}(::\{closure#\d+\})?$', f.path)]
+    seen = 0
+    for f in fs:
+        for b, t in f.calls():
+            if not f.callee_decl(t).endswith('Try>::branch') and not (f.callee(t) or '').endswith('Try>::branch'):
+                continue
+            a = f.expand(f.operand_tree(t['args'][0]))
+            if not is_call(a, 'get_memory_at_address'):
+                continue
+            seen += 1
+            res.rule('C04.11', 1)
+            addr = a[3] if len(a) > 3 else a[-1]
+            if 'get_memory_at_address' in show(addr) and any(b in body for body in f.loops().values()):
+                res.violation('C04.11', 'C04.11|candidate-read', f, t.get('line'), 'inside the probing loop a read at the candidate\'s own saved frame pointer (%s) ends the whole probe through `?`: later slots are never tried' % show(addr)[:100])
+    if not seen:
+        res.error('C04.11', 'no `?` on a stack read found in the amd64 frame-pointer probe')
+
+
+def ios_frame_pointer(res, prog, cu):
+    """C04.12: the ARM frame-pointer technique runs on iOS only, and on iOS the frame pointer is r7 (format.rs:
+    ArmRegisterNumbers::IosFramePointer); the technique must read and restore that register, not r11 / "fp"."""
+    res.rule('C04.12', 0, floor=1, note='arm frame-pointer technique (iOS only) uses the iOS frame pointer r7')
+    c = prog.crate('minidump_unwind')
+    v = c.consts.get('minidump_unwind::arm::FRAME_POINTER')
+    res.rule('C04.12', 1)
+    if v is None or 'str' not in v:
+        res.error('C04.12', 'minidump_unwind::arm::FRAME_POINTER not found')
+        return
+    fs = [f for f in cu.fns if re.search(r'^minidump_unwind::arm::get_caller_by_frame_pointer(::\{closure#0\})?$', f.path)]
+    ios_only = any(any(r[0] in ('eq', 'ne') and 'Os::Ios' in (show(r[2]) if len(r) > 2 and isinstance(r[2], tuple) else '') for r, g, sx in panics.dominating_facts(f, b)) for f in fs for b, t in f.calls() if (f.callee(t) or '').endswith('get_register'))
+    if v['str'] != 'r7' and ios_only:
+        res.violation('C04.12', 'C04.12|ios-fp', fs[0] if fs else None, None, 'the ARM frame-pointer technique is used on iOS only and follows "%s" (r11); on iOS the frame pointer is r7, so standard `push {r7, lr}; mov r7, sp` chains are not walked by frame pointer' % v['str'], file='minidump-unwind/src/arm.rs')
+
+
 def run(tier, t0):
     res = harness.Result(PID)
     prog = program()
@@ -399,6 +439,8 @@ def run(tier, t0):
     ptr_auth(res, prog, cu)
     cfi_walker(res, prog, cu)
     mips_abi_dispatch(res, prog, cu)
+    amd64_probe(res, prog, cu)
+    ios_frame_pointer(res, prog, cu)
     res.assumptions += ['that frames, registers and names come out right for a given stack is behavioural: a fault inside a technique\'s arithmetic is invisible to these rules']
     return harness.finish(res, tier, t0, distinct=9, explanation=(
         'Narrow claim: necessary structural conditions of correct walking. Technique priority and retry discipline in each architecture, technique labels, MIR-level equality of the arm64 / arm64_old twins modulo the context type, '
